@@ -173,6 +173,19 @@ def enumerate_cases(seeds, rng, quick):
             for opt in ("m=1", "m=1,a=cache.size:1", "m=1,a=cache.size:2"):
                 special.append(FileCase(s, opt, patches, what=what + (" after " + opt[4:] if len(opt) > 3 else ""),
                                         weight=0))
+        if s.name == "elfxen":
+            for what, patches in F.section_offset_cases(s):
+                for opt in ("m=0", "m=1"):
+                    special.append(FileCase(s, opt, patches, what=what + (" [mmap never]" if opt == "m=0" else ""),
+                                            weight=0))
+        if s.name == "elfxen":
+            for what, patches in F.relocation_cases(s):
+                for opt in ("m=0", "m=1"):
+                    special.append(FileCase(s, opt, patches, what=what + (" [mmap never]" if opt == "m=0" else ""),
+                                            weight=0))
+        if s.name == "elfpart":
+            for opt in ("m=1,a=cache.size:1", "m=0,a=cache.size:1", "m=1,a=cache.size:2"):
+                special.append(FileCase(s, opt, what="%s: unmodified seed after %s" % (s.name, opt[4:]), weight=0))
         cases += special
         # pre-open attribute history: values set on the fresh context before the open
         pre = []
@@ -533,6 +546,25 @@ def judge(run, lines, whats, model, impl):
         for sig, idxs in sorted(groups.items()):
             i = min(idxs, key=lambda k: (lines[k].count("+") + lines[k].count("@"), len(lines[k])))
             f.write("%d\t%s\n\t%s\n\t%s\n\t%s\n" % (len(idxs), sig, whats[i], lines[i][:400], impl[i][:700]))
+    # relocated sections: the file means the same as the unmodified seed, so must the answers
+    base = {}
+    for i, w in enumerate(whats):
+        m = re.match(r"(\w+): unmodified seed(, read\(2\) only)?$", w)
+        if m and lines[i].startswith("F "):
+            base[(m.group(1), "m=0" if m.group(2) else "m=1")] = impl[i]
+    keys = ("open=", "fmt=", "maxpfn=", "rdm=", "rdk=", "bmp=")
+    for i, w in enumerate(whats):
+        if "[same meaning as the unmodified seed]" in w and not BAD.search(impl[i]):
+            b = base.get((w.split(":")[0], lines[i].split()[1][:3]))
+            if b is None:
+                continue
+            pick = lambda l: [t for t in l.split() if t.startswith(keys)]
+            if pick(b) != pick(impl[i]):
+                groups.setdefault("corrupt tie relocated-section-differs", []).append(i)
+    with open(os.path.join(run.work, "abnormal.txt"), "w") as f:
+        for sig, idxs in sorted(groups.items()):
+            i = min(idxs, key=lambda k: (lines[k].count("+") + lines[k].count("@"), len(lines[k])))
+            f.write("%d\t%s\n\t%s\n\t%s\n\t%s\n" % (len(idxs), sig, whats[i], lines[i][:400], impl[i][:700]))
     for sig, idxs in sorted(groups.items()):
         # the simplest example: fewest patches, then shortest line
         i = min(idxs, key=lambda k: (lines[k].count("+") + lines[k].count("@"), len(lines[k])))
@@ -547,6 +579,10 @@ def judge(run, lines, whats, model, impl):
         elif sig.startswith("corrupt rle-tie"):
             run.violation("tie", "correspondence RleModel.uncompress_rle vs util.c broken on %s" % lines[i][:120],
                           replay, found_input=False, signature=sig)
+        elif sig.startswith("corrupt tie relocated"):
+            run.violation("impl", "the same dump with a section moved to an unaligned file offset is answered "
+                          "differently (max_pfn / page statuses): %s" % whats[i], replay, found_input=True,
+                          signature=sig + " :: " + whats[i])
         elif sig.startswith("corrupt tie"):
             run.violation("tie", "model prediction and library disagree (%s): %s" % (sig[12:], whats[i]),
                           replay, found_input=False, signature=sig)
